@@ -261,7 +261,8 @@ def run(F, R, tier):
     _check_tachyons(F, R)
 
     # ---- R5 order ---------------------------------------------------------------------------------
-    R.rule("R5", "Goldstone reordering (index 0, by MZ / MW) runs after all sector calculations", 3)
+    R.rule("R5", "Goldstone reordering (index 0, by MZ / MW) runs after all sector calculations and permutes masses "
+                 "and mixing-matrix rows consistently", 4)
     f = F.fn(CLS + "::calculate_DRbar_masses")
     closure_calls = []
     for s_ in f["body"].get("c", []):
@@ -291,6 +292,13 @@ def run(F, R, tier):
     calls = sorted(Rr.r(x) for x in walk(g["body"]) if is_call(x) and (x.get("fn") or "").endswith("move_goldstone_to"))
     R.check("R5", calls == ["move_goldstone_to(0, MVWm, MHpm, ZP)", "move_goldstone_to(0, MVZ, MAh, ZA)"],
             "Goldstones to index 0: %s" % calls, F.loc(g), "Goldstone reordering arguments changed", key="R5|goldstone")
+    # move_goldstone_to permutes masses and the *rows* of the mixing matrix with the same index pair
+    g = F.fns("gm2calc::move_goldstone_to")[0]
+    Rr = Renderer(g, resolve_locals=False)
+    swaps = sorted(Rr.r(x) for x in walk(g["body"]) if is_call(x) and (x.get("fn") or "").endswith("::swap"))
+    R.check("R5", swaps == ["v.row(new_pos).swap(v.row(pos))", "z.row(new_pos).swap(z.row(pos))"],
+            "move_goldstone_to swaps mass entries and mixing-matrix rows together: %s" % swaps, F.loc(g),
+            "masses and mixing matrix are not permuted consistently (mass eigenstates are the rows of Z)", key="R5|swap")
     # closest_index picks the minimum |v - mass|
     g = F.fns("gm2calc::closest_index")[0]
     Rr = Renderer(g)
